@@ -1112,8 +1112,10 @@ fn rv_values(depth: usize) -> Vec<RVal> {
     out.dedup();
     out
 }
-fn fam_refs(_func: Option<&str>, only: Option<u64>, panics_only: bool) {
-    let mut rep = Rep::new(if panics_only { "refspanic" } else { "refs" }, "convert_to_sem_type", only);
+fn fam_refs(_func: Option<&str>, only: Option<u64>, panics_only: bool, shared: bool) {
+    let mut rep = Rep::new(if shared { "refsshared" } else if panics_only { "refspanic" } else { "refs" }, "convert_to_sem_type", only);
+    // shared: ONE SemTypeContext for all questions, in sequence, as in a compiler session (memo tables persist)
+    let mut shared_ctx = SemTypeContext::new();
     let b = |t: RT| Box::new(t);
     let defs: Vec<(&'static str, RT)> = vec![
         // recursive tuple with itself as rest
@@ -1151,29 +1153,34 @@ fn fam_refs(_func: Option<&str>, only: Option<u64>, panics_only: bool) {
     std::panic::set_hook(Box::new(|_| {}));
     for t in &targets {
         for v in &values {
-            if !rep.want() { continue; }
+            // shared context: earlier questions are part of the input (memo tables), so they are always evaluated;
+            // `--case n` only selects which one is reported
+            let wanted = rep.want();
+            if !wanted && !shared { continue; }
             let spec = rt_member(t, v, &defs);
             // a panic inside the real code is a failure of this case (C04 speaks about it too); go on with the next
             let tt = t.clone();
             let vv = v.clone();
             let nr: Vec<NamedSchema> = named.clone();
-            let out = std::panic::catch_unwind(move || -> Result<Option<bool>, String> {
+            let sc = &mut shared_ctx;
+            let out = std::panic::catch_unwind(std::panic::AssertUnwindSafe(move || -> Result<Option<bool>, String> {
                 let nrefs: Vec<&NamedSchema> = nr.iter().collect();
-                let mut ctx = SemTypeContext::new();
+                let mut fresh = SemTypeContext::new();
+                let ctx: &mut SemTypeContext = if shared { sc } else { &mut fresh };
                 // a refused conversion (Err) is not an answer: such targets are skipped, not counted as failures
-                let tb = match rt_to_runtype(&tt).to_sem_type(&nrefs, &mut ctx) { Ok(x) => x, Err(_) => return Ok(None) };
-                let ta = match rt_to_runtype(&rv_singleton(&vv)).to_sem_type(&nrefs, &mut ctx) { Ok(x) => x, Err(_) => return Ok(None) };
-                match ta.is_subtype(&tb, &mut ctx) { Ok(r) => Ok(Some(r)), Err(e) => Err(format!("{}", e)) }
-            });
+                let tb = match rt_to_runtype(&tt).to_sem_type(&nrefs, ctx) { Ok(x) => x, Err(_) => return Ok(None) };
+                let ta = match rt_to_runtype(&rv_singleton(&vv)).to_sem_type(&nrefs, ctx) { Ok(x) => x, Err(_) => return Ok(None) };
+                match ta.is_subtype(&tb, ctx) { Ok(r) => Ok(Some(r)), Err(e) => Err(format!("{}", e)) }
+            }));
             match out {
                 Ok(Ok(None)) => { skipped += 1; }
-                Ok(Ok(Some(r))) => if r != spec && !panics_only {
+                Ok(Ok(Some(r))) => if r != spec && !panics_only && wanted {
                     rep.fail(format!("value {:?} against type {:?} with definitions {:?}", v, t, defs),
                              format!("(singleton type of the value) is_subtype (type) = {}", r),
                              format!("{} (membership of the value in the type, by recursion on the value)", spec));
                 },
-                Ok(Err(e)) => if !panics_only { rep.fail(format!("value {:?} against type {:?}", v, t), format!("is_subtype Err({})", e), "Ok".into()) },
-                Err(_) => rep.fail(format!("value {:?} against type {:?} with definitions {:?}", v, t, defs), "the real code PANICS".into(), format!("{}", spec)),
+                Ok(Err(e)) => if !panics_only && wanted { rep.fail(format!("value {:?} against type {:?}", v, t), format!("is_subtype Err({})", e), "Ok".into()) },
+                Err(_) => if wanted { rep.fail(format!("value {:?} against type {:?} with definitions {:?}", v, t, defs), "the real code PANICS".into(), format!("{}", spec)) },
             }
         }
     }
@@ -1212,8 +1219,9 @@ fn main() {
         "listfold" => fam_listfold(f, only),
         "listneg" => fam_listneg(f, only),
         "mapneg" => fam_mapneg(f, only),
-        "refs" => fam_refs(f, only, false),
-        "refspanic" => fam_refs(f, only, true),
+        "refs" => fam_refs(f, only, false, false),
+        "refspanic" => fam_refs(f, only, true, false),
+        "refsshared" => fam_refs(f, only, false, true),
         _ => {
             fam_bdd(f, only);
             fam_dnf(f, only);
